@@ -51,6 +51,14 @@ def _require_args(args_dict, required):
     return [args_dict[k] for k in required]
 
 
+def _plain_scalars(N, fs, olap, bmin, Lmin, Jdes, Kdes):
+    """Plan arithmetic is done in Python floats / ints whatever scalar types the caller holds.
+
+    A NumPy float32 `fs` (or `olap`, `bmin`) would otherwise drag the whole frequency grid down
+    to single precision (r*L = fs and f[j+1] = f[j] + r[j] only to ~1e-7)."""
+    return int(N), float(fs), float(olap), float(bmin), int(Lmin), int(Jdes), int(Kdes)
+
+
 def lpsd_plan(**args):
     """
     Original LPSD scheduler from:
@@ -149,6 +157,7 @@ def ltf_plan(**args):
     N, fs, olap, bmin, Lmin, Jdes, Kdes = _require_args(
         args, ["N", "fs", "olap", "bmin", "Lmin", "Jdes", "Kdes"]
     )
+    N, fs, olap, bmin, Lmin, Jdes, Kdes = _plain_scalars(N, fs, olap, bmin, Lmin, Jdes, Kdes)
 
     def round_half_up(val):
         if (float(val) % 1) >= 0.5:
@@ -307,6 +316,7 @@ def vectorized_ltf_plan(**args):
     N, fs, olap, bmin, Lmin, Jdes, Kdes = _require_args(
         args, ["N", "fs", "olap", "bmin", "Lmin", "Jdes", "Kdes"]
     )
+    N, fs, olap, bmin, Lmin, Jdes, Kdes = _plain_scalars(N, fs, olap, bmin, Lmin, Jdes, Kdes)
     # --- Phase 1: Vectorized Pre-computation on a LOG grid ---
     xov = 1 - olap
     fmin = bmin * fs / N
@@ -394,6 +404,7 @@ def new_ltf_plan(**args):
     N, fs, olap, bmin, Lmin, Jdes, Kdes = _require_args(
         args, ["N", "fs", "olap", "bmin", "Lmin", "Jdes", "Kdes"]
     )
+    N, fs, olap, bmin, Lmin, Jdes, Kdes = _plain_scalars(N, fs, olap, bmin, Lmin, Jdes, Kdes)
     xov = 1 - olap
     fmin = fs / N * bmin
     fmax = fs / 2
